@@ -35,11 +35,11 @@ META = {
     'out_of_reach': [
         'refusals not in the scenario table, and refusals on other image states: an effect-system proof over all call sites (DESIGN C14) was not built; the scenario table plus the per-function frame clauses (post_raise in C12/C13 contracts) is what is decided',
     ],
-    'bounded': ['%d refusal scenarios' % 49],
+    'bounded': ['%d refusal scenarios' % 90],
 }
 
 MANIFEST = {
-    'level_text': 'Bounded scenarios executed symbolically by the verifier on the real code (the whole new / add_* / write_fp path runs inside pyvc, byte-identical to CPython): for each of 59 refused calls, and for a refusal chosen from the state of each of 8 random edit histories (thorough: 105), (bad names, duplicates, missing parents, wrong image flavour, El Torito / isohybrid parameter errors, multi-namespace edits) the image must be exactly as before - next write and later edit+write equal those of a reference image. 14 call shapes are recorded known findings (multi-namespace edits applied namespace by namespace: K12), one defect repaired (add_isohybrid).',
+    'level_text': 'Bounded scenarios executed symbolically by the verifier on the real code (the whole new / add_* / write_fp path runs inside pyvc, byte-identical to CPython): for each of 90 refused calls, and for a refusal chosen from the state of each of 8 random edit histories (thorough: 105), (bad names, duplicates, missing parents, wrong image flavour, El Torito / isohybrid parameter errors, multi-namespace edits) the image must be exactly as before - next write and later edit+write equal those of a reference image. Defects repaired: the family K12 (multi-step edits refused after an earlier step was applied: add_fp / add_directory / add_symlink / rm_directory / add_eltorito now check every namespace before the first change), add_isohybrid changing the object when refused, K62 / K64 - K67 (calls that were accepted and made the next write fail). No known finding left.',
     'level_note': 'NOT an all-call-sites proof: bounded scenario table, symbolic only in length / illegal character. Trusted: pyvc executing ~10k lines of real code per scenario (cross-checked: mastering output byte-identical with CPython), pinned clock/random.',
     'design_ref': 'DESIGN.md section 4 C14',
 }
